@@ -28,6 +28,7 @@ func main() {
 	verbose := flag.Bool("v", false, "print every non-ok obligation")
 	all := flag.Bool("all", false, "print every obligation")
 	exploreKind := flag.String("explore-kind", "swap", "swap|delete")
+	explorePkg := flag.String("explore-pkg", "", "explore packages whose path contains this string instead of package ro (e.g. plugins/, ee/plugins/prometheus)")
 	explore := flag.String("explore", "", "development aid: statement-swap mutants of functions whose name contains this string ('all'); prints the ones no rule reports")
 	flag.Parse()
 
@@ -54,7 +55,11 @@ func main() {
 	}
 
 	if *explore != "" {
-		prog, err := load.Load(load.Config{Repo: *repo, Patterns: rules.CorePatterns})
+		pats := rules.CorePatterns
+		if *explorePkg != "" {
+			pats = rules.AllPatterns()
+		}
+		prog, err := load.Load(load.Config{Repo: *repo, Patterns: pats})
 		die(err)
 		m, err := model.Build(prog)
 		die(err)
@@ -62,7 +67,7 @@ func main() {
 		if f == "all" {
 			f = ""
 		}
-		rules.Explore(m, *repo, f, *exploreKind)
+		rules.Explore(m, *repo, f, *exploreKind, *explorePkg)
 		return
 	}
 	if *dump != "" {
